@@ -69,7 +69,8 @@ def run(ctx):
     ctx.require_obs("bq_scenarios", "bq_put_found_full", "bq_take_found_empty", "bq_items_left_at_close",
                     "bq_refused_after_close", "ring_items", "ring_full_seen", "ring_empty_seen", "ring_resizes",
                     "condvar_prepark_delays", "bq_burst_consumers_parked", "bq_burst_producers_parked",
-                    "bq_failed_takes_judged", "bq_refused_puts_judged")
+                    "bq_failed_takes_judged", "bq_refused_puts_judged",
+                    "bq_burst_then_close_consumers_parked", "bq_burst_then_close_producers_parked")
 
 
 def replay(ctx, path):
